@@ -48,6 +48,22 @@ def regen(ctx):
         ctx.log("gen/GenVec.v changed -> regenerated, theorems are re-checked against the new text")
     ctx.cov["generated_definitions"] = txt.count("\nDefinition ")
     ctx.cov["generated_unsupported"] = [l[3:90] for l in txt.splitlines() if l.startswith("(* UNSUPPORTED")]
+    # constants.h: every conversion operator of every tag constant, floating literals as exact dyadic rationals
+    newc = os.path.join(ctx.build, "GenConst.v.new")
+    cmd = ["python3", os.path.join(ctx.verif, "tools/cxx2coq/cxx2coq.py"), os.path.join(ctx.verif, "tools/cxx2coq/inst/const.cpp"), newc,
+           "--repo", ctx.repo, "--inc", os.path.join(ctx.verif, "build", "include"), "-D", "RKCOMMON_NO_SIMD", "--exact-literals",
+           "--only", r"^(\w+Ty_conv_|c04_)"]
+    rc, out = vlib.sh(cmd, timeout=300)
+    if rc != 0 or not os.path.exists(newc):
+        ctx.broken.append("cxx2coq failed on tools/cxx2coq/inst/const.cpp: " + out[-600:])
+        return False
+    tgt = os.path.join(gen, "GenConst.v")
+    txt = open(newc).read()
+    if not os.path.exists(tgt) or open(tgt).read() != txt:
+        shutil.copy(newc, tgt)
+        ctx.log("gen/GenConst.v changed -> regenerated")
+    ctx.cov["generated_constant_definitions"] = txt.count("\nDefinition ")
+    ctx.cov["generated_unsupported"] += [l[3:90] for l in txt.splitlines() if l.startswith("(* UNSUPPORTED")]
     return True
 
 
@@ -221,9 +237,10 @@ def run(ctx):
     ok_gen = regen(ctx)
     mkprops.main.__globals__["print"] = lambda *a, **k: None
     files = mkprops.properties()
-    mkprops.spec_v(); mkprops.extract_v(); mkprops.extract_spec_v(); mkprops.driver_ml(); mkprops.tv_inc()
-    prop_files = tuple(files) + ("Properties_instances.v",)
+    mkprops.spec_v(); mkprops.extract_v(); mkprops.extract_spec_v(); mkprops.constants(); mkprops.driver_ml(); mkprops.tv_inc()
+    prop_files = tuple(files) + ("Properties_instances.v", "Properties_constants.v")
     ctx.coq_check(prop_files)
+    pi_obligations(ctx)
     ctx.log("coq: %d/%d obligations discharged" % (ctx.discharged, ctx.obligations))
     ctx.cov["inventory_entries"] = len(inv.ENTRIES)
     fam = {}
@@ -238,11 +255,14 @@ def run(ctx):
     ctx.log("model extracted and built")
     tvflags = ["-DRKCOMMON_NO_SIMD", "-ffp-contract=off"]
     jobs = [dict(sources=["tv.cpp"], out="tv%d" % k, sanitize="asan", flags=tvflags + ["-DTV_PART=%d" % k]) for k in range(mkprops.NPART)]
+    jobs += [dict(sources=["consts.cpp"], out="consts", sanitize="asan")]
     jobs += [dict(sources=["oracle.cpp"], out="oracle%d" % k, sanitize="asan", opt="-O0", flags=["-ffp-contract=off", "-DORACLE_PART=%d" % k]) for k in range(4)]
     from concurrent.futures import ThreadPoolExecutor
     with ThreadPoolExecutor(max_workers=4) as ex:
         exes = list(ex.map(lambda kw: ctx.cxx(**kw), jobs))
-    tvs, oracles = exes[:mkprops.NPART], exes[mkprops.NPART:]
+    tvs, cexe, oracles = exes[:mkprops.NPART], exes[mkprops.NPART], exes[mkprops.NPART + 1:]
+    if cexe:
+        constants_validation(ctx, inv, cexe)
     ctx.log("harnesses built")
     if (model or spec_only) and all(tvs):
         translation_validation(ctx, inv, mkprops, model, tvs, spec_only)
@@ -270,6 +290,115 @@ def run(ctx):
                         "arg_max (the only loop in vec.h) is hand-modelled (coq/C04/ArgMax.v) and compared with the real template on every run"]
     if ctx.thorough():
         ctx.coq_thorough_chk(["C04.Properties_binary_vv", "C04.Properties_order", "C04.Properties_algebra", "C04.Properties_instances"])
+
+
+def pi_obligations(ctx):
+    """PropertiesConstantsPi.v (Reals + coq-interval): counted here; Print Assumptions through Reals/Interval costs 7 s per theorem, so it is
+    run on one representative theorem in the quick tier and on all of them in the thorough tier."""
+    src = os.path.join(ctx.coqdir, "PropertiesConstantsPi.v")
+    names = vlib.theorem_names(open(src).read())
+    qrc, _ = vlib.sh(["make", "-f", "Makefile.coq", "-q", "PropertiesConstantsPi.vo"], cwd=ctx.coqdir, timeout=300)
+    built = os.path.exists(src[:-2] + ".vo") and qrc == 0
+    ctx.obligations += len(names)
+    if built:
+        ctx.discharged += len(names)
+    else:
+        ctx.broken += ["theorem " + n for n in names]
+        return
+    todo = names if ctx.thorough() else names[:1]
+    af = os.path.join(ctx.build, "AssumPi.v")
+    open(af, "w").write("Require C04.PropertiesConstantsPi.\n" + "".join("Print Assumptions C04.PropertiesConstantsPi.%s.\n" % n for n in todo))
+    rc, out = vlib.sh(["coqc"] + vlib.coqproject_args(ctx.coqdir) + [af], cwd=ctx.build, timeout=900)
+    import re
+    ax = sorted(set(re.findall(r"^([A-Za-z_][\w.']*)\s*(?::|$)", out, re.M)) - {"Axioms"})
+    ctx.cov["pi_family_axioms"] = ax
+    ctx.trusted.append("PropertiesConstantsPi.v (%d theorems, Coq Reals + coq-interval): Print Assumptions on %d of them lists the standard Reals axioms "
+                       "(ClassicalDedekindReals.sig_forall_dec, sig_not_dec, FunctionalExtensionality.functional_extensionality_dep) and the primitive "
+                       "63-bit integer / float primitives and their specification axioms used by coq-interval (Uint63.*, PrimInt63.*, PrimFloat.*, FloatAxioms.*): %d names"
+                       % (len(names), len(todo), len(ax)))
+
+
+def constants_validation(ctx, inv, cexe):
+    """exact-execution validation of constants.h: the REAL headers print every T(c) bit pattern; the table of props/C04/inventory.py is the
+    oracle (a difference is a VIOLATION with the witness constant, type, bits); the extracted regenerated definitions must agree bit for bit."""
+    rc, out, err = ctx.run_exe(cexe, [], timeout=120)
+    if rc != 0:
+        ctx.violation("constants harness crashed (rc=%d)" % rc, {"stderr_tail": err[-2000:]}, found_input=False)
+        return
+    impl = {}
+    for l in out.splitlines():
+        t = l.split()
+        if t: impl[t[0]] = t[1:]
+    want = {c["name"]: ([c["bits"]], c) for c in inv.CONSTS}
+    for b in inv.CONST_BROADCAST:
+        want[b["name"]] = ([b["bits"]] * len(inv.SH[b["sh"]][1]), dict(what="vec_t<%s,%s>(%s(%s))" % (inv.CXXT[b["t"]], b["sh"], inv.CXXT[b["t"]], b["c"]),
+                                                                       cxx="broadcast", ctype=inv.CT[b["t"]]))
+    nbad = 0
+    for name, (w, c) in want.items():
+        ctx.count(1)
+        got = impl.get(name)
+        if got != w:
+            nbad += 1
+            if nbad <= 6:
+                ctx.violation("constants.h: %s does not have the value of the table" % c["what"],
+                              {"constant": c["what"], "cxx_expression": c["cxx"], "type": c["ctype"], "observed_bits": got, "required_bits": w,
+                               "definition": name, "named_lemma": "const_" + name})
+        ctx.nontriv("const/" + name)
+    # uses of the constants
+    lim = {"int16": (32767, -32768), "uint16": (65535, 0), "int32": (2147483647, -2147483648), "uint32": (4294967295, 0),
+           "int64": (9223372036854775807, -9223372036854775808), "uint64": (18446744073709551615, 0), "uint8": (255, 0),
+           "float": ("7f800000", "ff800000"), "double": ("7ff0000000000000", "fff0000000000000")}
+    for tn, (hi, lo) in lim.items():
+        ctx.count(2)
+        got = impl.get("use:range_default/" + tn)
+        if got != [str(hi), str(lo), "1"]:
+            ctx.violation("range_t<%s>() is not the empty range [pos_inf, neg_inf]" % tn, {"type": tn, "observed(lower,upper,empty)": got, "required": [str(hi), str(lo), "1"]})
+        got = impl.get("use:range_extend_one/" + tn)
+        one = {"float": "3f800000", "double": "3ff0000000000000"}.get(tn, "1")
+        if got != [one, one, "0"]:
+            ctx.violation("range_t<%s>().extend(1) is not [1,1]: the default range is not the identity of extend" % tn, {"type": tn, "observed": got, "required": [one, one, "0"]})
+    for tn in ("float", "double", "int32", "int64", "int16"):
+        ctx.count(1)
+        z, o = {"float": ("00000000", "3f800000"), "double": ("0000000000000000", "3ff0000000000000")}.get(tn, ("0", "1"))
+        got = impl.get("use:clamp_default/" + tn)
+        if got != [z, z, o, o]:
+            ctx.violation("clamp(x) with the default bounds T(zero), T(one) on x = -3, 0, 1, 5 (%s)" % tn, {"type": tn, "observed": got, "required": [z, z, o, o]})
+    got = impl.get("use:safe_normalize_tiny/float")
+    ctx.count(2)
+    if not got or got[0] != got[1] or impl.get("use:safe_normalize_zero/float") != ["00000000"] * 3:
+        ctx.violation("safe_normalize does not clamp dot(v,v) from below by T(ulp)", {"observed": [got, impl.get("use:safe_normalize_zero/float")],
+                                                                                       "required": "v * rsqrt(max(epsilon, dot(v,v)))"})
+    # the extracted regenerated definitions, bit for bit
+    bdir = os.path.join(ctx.build, "ml_const")
+    os.makedirs(bdir, exist_ok=True)
+    shutil.copy(os.path.join(ctx.coqdir, "ExtractConst.v"), os.path.join(bdir, "DoExtract.v"))
+    rc, o = vlib.sh(["coqc"] + vlib.coqproject_args(ctx.coqdir) + ["DoExtract.v"], cwd=bdir, timeout=600)
+    if rc != 0:
+        ctx.broken.append("extraction ExtractConst.v (a constant of the table is missing from the regenerated gen/GenConst.v?)")
+        return
+    with open(os.path.join(bdir, "drv.ml"), "w") as f:
+        f.write("open ModelC\n")
+        for sn in ("conv_N.ml", "conv_Z.ml", "conv_nat.ml"):
+            f.write(open(os.path.join(ctx.verif, "ocaml", "snippets", sn)).read() + "\n")
+        f.write(open(os.path.join(ctx.verif, "ocaml", ctx.pid, "driver_const.ml")).read())
+    exe = os.path.join(ctx.build, "model_const")
+    rc, o = vlib.sh(["ocamlfind", "ocamlopt", "-w", "-a", "-o", exe, "ModelC.mli", "ModelC.ml", "drv.ml"], cwd=bdir, timeout=600)
+    if rc != 0:
+        ctx.log("ocaml build (constants) failed:\n" + o[-1500:])
+        ctx.broken.append("ocaml constants driver build")
+        return
+    rc, mout, merr = ctx.run_exe(exe, [], timeout=120)
+    model = {}
+    for l in mout.splitlines():
+        t = l.split()
+        if t: model[t[0]] = t[1:]
+    diffs = [n for n in want if model.get(n) != impl.get(n)]
+    for n in diffs[:5]:
+        if impl.get(n) == want[n][0]:
+            ctx.broken.append("correspondence: regenerated constant %s evaluates to %s, the real header gives %s" % (n, model.get(n), impl.get(n)))
+    ctx.cov["constants_compared_bit_for_bit"] = len(want)
+    ctx.cov["constant_uses_checked"] = 2 * len(lim) + 5 + 2
+    ctx.sample({"constant": "two_pi as double", "bits": impl.get("TwoPiTy_conv_d__"), "model": model.get("TwoPiTy_conv_d__")})
 
 
 def translation_validation(ctx, inv, mkprops, model, tvs, spec_only=None):
